@@ -267,6 +267,7 @@ func runC08(o Opts) error {
 		}
 		s.Extra["two_clients_one_port"] = "ran"
 	}
+	failedDiscoveryProbe(s, farm, netT)
 	s.Extra["calls"] = totalCalls
 	s.Extra["timeout_ms"] = ms(netT)
 
